@@ -352,12 +352,14 @@ def multi_pkg_case(rng, cid):
     c.files['cmd/alpha/k.go'] = ('package main\n\nimport "github.com/mazrean/kessoku"\n\ntype Config struct{ N int }\n\ntype Store struct{ C *Config }\n\n'
                                  'func NewConfig() *Config { return &Config{N: 1} }\n\nfunc NewStore(c *Config) (*Store, error) { return &Store{C: c}, nil }\n\n'
                                  'var _ = kessoku.Inject[*Store]("InitStore", kessoku.Async(kessoku.Provide(NewConfig)), kessoku.Provide(NewStore))\n\nfunc main() {}\n')
-    c.files['cmd/beta/k.go'] = ('package main\n\nimport "github.com/mazrean/kessoku"\n\ntype Config struct{ Name string }\n\ntype Service struct{ Name string }\n\n'
-                                'func config() string { return "beta" }\n\nvar store = 3\n\nconst err = "not the error variable"\n\n'
-                                'func NewConfig() (*Config, error) { return &Config{Name: config()}, nil }\n\ntype Store struct{ C *Config }\n\n'
-                                'func NewStore(c *Config) *Store { return &Store{C: c} }\n\n'
-                                'var _ = kessoku.Inject[*Service]("InitService",\n\tkessoku.Async(kessoku.Provide(NewConfig)),\n\tkessoku.Async(kessoku.Provide(NewStore)),\n'
-                                '\tkessoku.Provide(func(c *Config, s *Store) *Service { return &Service{Name: c.Name + config()} }),\n)\n\nfunc main() { _ = store; _ = err }\n')
+    c.files['cmd/beta/k.go'] = ('package main\n\nimport "github.com/mazrean/kessoku"\n\ntype Config struct{ Name string }\n\ntype Cache struct{ C *Config }\n\n'
+                                'type Service struct{ Name string }\n\n'
+                                '// package-level identifiers named like the locals this package\'s injector would get; the other package has none of them\n'
+                                'func cache() string { return "beta" }\n\nvar service = 3\n\nconst err = "not the error variable"\n\n'
+                                'func NewConfig() (*Config, error) { return &Config{Name: cache()}, nil }\n\n'
+                                'func NewCache(c *Config) *Cache { return &Cache{C: c} }\n\n'
+                                'var _ = kessoku.Inject[*Service]("InitService",\n\tkessoku.Async(kessoku.Provide(NewConfig)),\n\tkessoku.Async(kessoku.Provide(NewCache)),\n'
+                                '\tkessoku.Provide(func(c *Config, ca *Cache) *Service { return &Service{Name: c.Name + cache()} }),\n)\n\nfunc main() { _ = service; _ = err }\n')
     c.invoke = ['cmd/alpha/k.go', 'cmd/beta/k.go']
     c.meta.update({'kind': 'two-packages-one-name', 'multi_pkg': True, 'ninj': 1, 'nfiles': 2, 'types': ['multi-pkg']})
     return c
